@@ -29,7 +29,7 @@ def key_names(m, obs):
 
 def validate(chk, pid, obs_path, cases, shards):
     out, lines, rs = core.tlc_validate("trace/NameBookTrace.tla", "trace/NameBookTrace.cfg", obs_path, shards=shards,
-                                       timeout=3000, tags=("MISMATCH", "DRIFT"))
+                                       timeout=3000, env=po.FAST_JVM, tags=("MISMATCH", "DRIFT"))
     po.classify(chk, pid, out["MISMATCH"], lines, cases, key_names)
     if out["DRIFT"]:
         msg = "MODEL-DRIFT: %d scenario(s) in which the client asked the bus where the steering model expected a local answer (first id %s)" % (
@@ -45,32 +45,37 @@ def run(pid, tier, replay):
     if replay:
         return po.do_replay(chk, pid, binary, replay, "c36", validate)
     quick = chk.quick
-    po.model_check(chk, "mc/MC_NameBook.tla", "mc/MC_NameBook.cfg" if quick else "mc/MC_NameBook_thorough.cfg", ACTIONS)
-    po.expect_violation(chk, "mc/MC_NameBook.tla", "mc/MC_NameBook_dev.cfg", ["NoWrongLocalAnswer"])
+    with po.Phase(chk, "model_check"):
+        po.model_check(chk, "mc/MC_NameBook.tla", "mc/MC_NameBook.cfg" if quick else "mc/MC_NameBook_thorough.cfg", ACTIONS,
+                       workers=4 if quick else 8)
+        po.expect_violation(chk, "mc/MC_NameBook.tla", "mc/MC_NameBook_dev.cfg", ["NoWrongLocalAnswer"], workers=2)
     cases_path = chk.path("cases.ndjson")
-    g, n = core.tlc_generate("gen/Gen_NameBook.tla", "gen/Gen_NameBook_quick.cfg" if quick else "gen/Gen_NameBook_thorough.cfg",
-                             cases_path, timeout=3000)
+    with po.Phase(chk, "generate"):
+        g, n = core.tlc_generate("gen/Gen_NameBook.tla", "gen/Gen_NameBook_quick.cfg" if quick else "gen/Gen_NameBook_thorough.cfg",
+                                 cases_path, timeout=3000, workers=4)
     chk.add_tlc(g)
     obs_path = chk.path("obs.ndjson")
-    po.run_sharded(binary, "c36", cases_path, obs_path, procs=2 if quick else 8)
+    with po.Phase(chk, "replay"):
+        po.run_sharded(binary, "c36", cases_path, obs_path, procs=2 if quick else 8)
     cases = po.load_cases(cases_path)
-    lines = validate(chk, pid, obs_path, cases, shards=8 if quick else 14)
-    objs = [json.loads(x) for x in lines]
+    with po.Phase(chk, "validate"):
+        lines = validate(chk, pid, obs_path, cases, shards=6 if quick else 14)
     chk.add("enumerated_cases", n)
     chk.cov["exhaustive"] = True
     chk.add("traces_validated_against_impl", len(lines))
     chk.cov["evaluations"] = len(lines)
-    chk.cov["distinct_nontrivial"] = core.distinct_count(
-        [o for o in objs if sum(1 for e in o.get("log", []) if e["k"] == "recv") >= 2], lambda o: json.dumps(o.get("log")))
+    dn, cnt, samples = po.stats(
+        lines, lambda o: sum(1 for e in o.get("log", []) if e["k"] == "recv") >= 2, lambda o: json.dumps(o.get("log")),
+        {"api_results": lambda o: sum(1 for e in o.get("log", []) if e["k"] == "result"),
+         "local_answers": lambda o: sum(1 for i, e in enumerate(o.get("log", [])) if e["k"] == "result" and o["log"][i - 1]["k"] == "call"),
+         "logs_with_forged_signal": lambda o: int(any(e["k"] == "recv" and e.get("gen") is False for e in o.get("log", [])))})
+    chk.cov["distinct_nontrivial"] = dn
+    chk.cov.update(cnt)
     chk.cov["rule"] = ("cases = every behaviour of the NameBook bus model with <= MaxSteps (4 quick, 5 thorough) API calls / other-peer steps, "
                        "every flag set in {none, allow, replace+dnq, allow+dnq}, <= 1 forged (thorough: or other-name) signal placed where a client "
                        "accepting it would change state, x schedule (client run after every message / only before API calls); distinct by recorded "
                        "log; non-trivial = the client received at least two bus messages")
-    api = [e for o in objs for e in o.get("log", []) if e["k"] == "result"]
-    chk.cov["api_results"] = len(api)
-    chk.cov["local_answers"] = sum(1 for o in objs for i, e in enumerate(o["log"]) if e["k"] == "result" and o["log"][i - 1]["k"] == "call")
-    chk.cov["logs_with_forged_signal"] = sum(1 for o in objs if any(e["k"] == "recv" and e.get("gen") is False for e in o.get("log", [])))
-    for o in objs[:1] + objs[len(objs) // 2:len(objs) // 2 + 2] + objs[-1:]:
+    for o in samples:
         chk.sample({"sched": o.get("sched"), "log": o.get("log")})
     chk.assumptions += [
         "the bus follows the D-Bus specification's RequestName / ReleaseName / queueing rules (NameBook part 2); histories a conforming bus cannot produce are not demanded",
